@@ -653,6 +653,11 @@ def _model_dict(c, m):
             out[name] = str(val.as_fraction())
         elif z3.is_true(val) or z3.is_false(val):
             out[name] = z3.is_true(val)
+        elif z3.is_fp(val):
+            try:
+                out[name] = float(val.as_string()) if not val.isNaN() else float('nan')
+            except Exception:
+                out[name] = str(val)
         else:
             out[name] = str(val)
     return out
@@ -685,6 +690,8 @@ def check(cond, label, known=(), detail=None):
         r = c._check(neg, *excl)
     else:
         r = c._check(neg)
+        if XCHECK_EVERY and r != z3.unknown:
+            _xcheck(c, neg, r)
     if r == z3.sat:
         m = c.solver.model()
         c.violations.append({'label': label, 'detail': detail, 'model': _model_dict(c, m),
@@ -724,6 +731,49 @@ def check(cond, label, known=(), detail=None):
 
 
 ACTIVE_KNOWN = set()
+
+# second-solver cross-check (thorough tier): every XCHECK_EVERY-th assertion query is dumped as SMT-LIB2 and re-decided
+# by the system z3 4.8.12 binary; disagreement or an (error line makes the run an engine error
+XCHECK_EVERY = 0
+_xcheck_n = [0]
+
+
+def _xcheck(c, neg, result):
+    import os
+    import subprocess
+    import tempfile
+    _xcheck_n[0] += 1
+    if not XCHECK_EVERY or _xcheck_n[0] % XCHECK_EVERY:
+        return
+    s2 = z3.Solver()
+    s2.add(c.solver.assertions())
+    s2.add(neg)
+    txt = '(set-option :timeout 20000)\n' + s2.to_smt2()
+    fd, path = tempfile.mkstemp(suffix='.smt2', prefix='symx-x-')
+    try:
+        with os.fdopen(fd, 'w') as f:
+            f.write(txt)
+        out = subprocess.run(['/usr/bin/z3', '-smt2', path], stdout=subprocess.PIPE, stderr=subprocess.STDOUT, text=True,
+                             timeout=60).stdout
+    except Exception as ex:
+        out = 'unknown ' + type(ex).__name__
+    finally:
+        try:
+            os.unlink(path)
+        except OSError:
+            pass
+    first = out.strip().splitlines()[0] if out.strip() else 'unknown'
+    cnt = c.notes.setdefault('count', {})
+    if '(error' in out:
+        cnt['xcheck_error'] = cnt.get('xcheck_error', 0) + 1
+    elif first in ('sat', 'unsat'):
+        if first == str(result):
+            cnt['xcheck_agree'] = cnt.get('xcheck_agree', 0) + 1
+        else:
+            cnt['xcheck_disagree'] = cnt.get('xcheck_disagree', 0) + 1
+            c.notes['xcheck_disagreement'] = f'z3 5.1 says {result}, z3 4.8.12 says {first}'
+    else:
+        cnt['xcheck_unknown'] = cnt.get('xcheck_unknown', 0) + 1
 
 
 def check_all(items):
